@@ -276,8 +276,8 @@ def r3(ctx):
                 break
             pa = path_atoms(ccfg, p_)
             lo1, lo2 = "_vector_score_lower(c_old_score, %s)" % new_p, "_vector_score_lower(%s, c_old_score)" % new_p
-            if ((lo1, False) in pa and (lo2, False) in pa) or any(t_ in pa for t_ in (("c_old_score == %s" % new_p, True), ("%s == c_old_score" % new_p, True))):
-                # unchanged score: nothing to restore; look for another path
+            if any((t_, not p0_) in pa for t_, p0_ in pa) or ((lo1, False) in pa and (lo2, False) in pa) or any(t_ in pa for t_ in (("c_old_score == %s" % new_p, True), ("%s == c_old_score" % new_p, True))):
+                # contradictory (infeasible) path, or unchanged score: nothing to restore; look for another path
                 tests = [(a_, b_) for a_, b_ in zip(p_, p_[1:]) if ccfg.kind(a_) == "test"]
                 if not tests:
                     break
